@@ -11,7 +11,7 @@ From Coquelicot Require Coquelicot.
 Import Coquelicot.Hierarchy Coquelicot.RInt.
 From OM Require Import Base.Ops Base.OpsR Base.Vec3 Gen.GenQuadTables Geom.Kernels Geom.Quadrature
                        Geom.QuadTablesProofs Geom.QuadProofs Geom.KernelProofs
-                       Geom.QuadSymmetry Geom.AdaptiveProofs Geom.EdgeIntegral Geom.SolidAngleValues Geom.GreenFallback.
+                       Geom.QuadSymmetry Geom.AdaptiveProofs Geom.EdgeIntegral Geom.SolidAngleValues Geom.GreenFallback Geom.AdaptiveQuadratic Geom.SolidAngleSplit Geom.AnalyticSInPlane.
 From Coq Require Import Permutation.
 Import ListNotations.
 
@@ -224,6 +224,22 @@ Theorem adaptive_exact_on_polynomials : forall ord (f : vec3 R -> R) (I : vec3 R
 Proof. exact adaptive_exact_on_polynomials_lemma. Qed.
 Print Assumptions adaptive_exact_on_polynomials.
 
+(* degree <= 2, UNCONDITIONAL (no integral, additivity or norm hypothesis): f(x) = c + g.x + x.Q.x.  The bounds Ma, Mq are on the
+   Bernstein coefficients g.s_i and q(s_i,s_j) of the ROOT triangle only; they are inherited by every sub-triangle (de Casteljau:
+   convex combinations), so the band is uniform over the refinement tree.  quad_I is area2 (c/2 + sum g.s_i/6 + sum_{i<=j} q(s_i,s_j)/12). *)
+Theorem adaptive_exact_on_polynomials_degree2 : forall c q11 q22 q33 q12 q13 q23 (g : vec3 R) ord depth tol Ma Mq t0 t1 t2,
+  quad_P q11 q22 q33 q12 q13 q23 g Ma Mq t0 t1 t2 ->
+  Rabs (integrate OpsR (RS_scalar OpsR) ord depth tol (quadf c q11 q22 q33 q12 q13 q23 g) t0 t1 t2
+        - quad_I c q11 q22 q33 q12 q13 q23 g t0 t1 t2)
+    <= / IZR (10 ^ 14) * (Rabs c + 3 * Ma + 9 * Mq) * area2 OpsR t0 t1 t2.
+Proof. exact adaptive_exact_on_quadratics_lemma. Qed.
+Print Assumptions adaptive_exact_on_polynomials_degree2.
+
+(* the invariant is satisfiable on every triangle (take the maxima), e.g. *)
+Example quad_P_satisfiable :
+  quad_P 1 0 0 0 0 0 (mkV 0 0 1) 0 1 (mkV 0 0 0) (mkV 1 0 0) (mkV 0 1 0).
+Proof. unfold quad_P, bil, dot; cbn. rewrite ?Rmult_0_l, ?Rmult_0_r, ?Rmult_1_l, ?Rplus_0_l, ?Rplus_0_r, ?Rabs_R0, ?Rabs_R1. lra. Qed.
+
 (* ---------------------------------------------------------------- kernels *)
 Theorem D3_components_sum_to_solid_angle : forall v0 v1 v2 x : vec3 R,
   let r := analyticD3_f OpsR (analyticD3_init OpsR v0 v1 v2) x in
@@ -300,6 +316,42 @@ Example green_on_edge_line_dyadic_point :
   integral_simplified_green OpsR (vsub OpsR p0 x) (norm OpsR (vsub OpsR p0 x)) (vsub OpsR p1 x) (norm OpsR (vsub OpsR p1 x))
                             (vsub OpsR p1 p0) (norm OpsR (vsub OpsR p1 p0)) = ln 2.
 Proof. exact green_on_line_dyadic. Qed.
+
+(* analyticS::f for x IN THE PLANE of the triangle and off the three edge lines (family covered: S_n.(v0-x) = 0, the three
+   cross products non-zero, the three log arguments normal doubles): the model's value is the code's decomposition
+   sum_i (p_i x . nu_i) * int_{edge i} 1/|x-y| dl  with each edge term a Riemann integral.  NOT proved: the divergence-theorem
+   step  int int_T 1/|x-y| dS = that sum  (classical; stays measured by the reference quadrature). *)
+Theorem analyticS_in_plane_is_sum_of_edge_integrals : forall v0 v1 v2 x : vec3 R,
+  let a := analyticS_init OpsR v0 v1 v2 in
+  dot OpsR (vsub OpsR v0 x) (S_n a) = 0 ->
+  0 < norm2 OpsR (cross OpsR (vsub OpsR v0 x) (vsub OpsR v1 v0)) ->
+  0 < norm2 OpsR (cross OpsR (vsub OpsR v1 x) (vsub OpsR v2 v1)) ->
+  0 < norm2 OpsR (cross OpsR (vsub OpsR v2 x) (vsub OpsR v0 v2)) ->
+  fisnormal OpsR (edge_arg v0 v1 x) = true -> fisnormal OpsR (edge_arg v1 v2 x) = true -> fisnormal OpsR (edge_arg v2 v0 x) = true ->
+  exists I0 I1 I2,
+    Coquelicot.RInt.is_RInt (edge_integrand v0 v1 x) 0 1 I0 /\ Coquelicot.RInt.is_RInt (edge_integrand v1 v2 x) 0 1 I1 /\
+    Coquelicot.RInt.is_RInt (edge_integrand v2 v0 x) 0 1 I2 /\
+    analyticS_f OpsR a x = dot OpsR (vsub OpsR v0 x) (S_nu0 a) * I0 + dot OpsR (vsub OpsR v1 x) (S_nu1 a) * I1
+                           + dot OpsR (vsub OpsR v2 x) (S_nu2 a) * I2.
+Proof. exact analyticS_in_plane_lemma. Qed.
+Print Assumptions analyticS_in_plane_is_sum_of_edge_integrals.
+
+(* solid angle: additivity when the triangle is split by a point m = (1-t) v2 + t v3 of an edge, branch conditions explicit:
+   none of the three coplanarity tests fires, the three denominators are positive (each |Omega| < PI, atan branch of atan2).
+   (The 4-way midpoint split is six such splits through the centre of the median quadrilateral, plus solid_angle_cyclic.) *)
+Theorem solid_angle_edge_split_additive : forall (x v1 v2 v3 : vec3 R) (t : R),
+  let m := vadd OpsR (vscale OpsR (1 - t) v2) (vscale OpsR t v3) in
+  let Y1 := vsub OpsR v1 x in let Y2 := vsub OpsR v2 x in let Y3 := vsub OpsR v3 x in let Ym := vsub OpsR m x in
+  0 <= t <= 1 ->
+  coplanar_test OpsR (det3 OpsR Y1 Y2 Y3) (norm OpsR Y1) (norm OpsR Y2) (norm OpsR Y3) = false ->
+  coplanar_test OpsR (det3 OpsR Y1 Y2 Ym) (norm OpsR Y1) (norm OpsR Y2) (norm OpsR Ym) = false ->
+  coplanar_test OpsR (det3 OpsR Y1 Ym Y3) (norm OpsR Y1) (norm OpsR Ym) (norm OpsR Y3) = false ->
+  0 < solid_angle_den OpsR Y1 Y2 Y3 (norm OpsR Y1) (norm OpsR Y2) (norm OpsR Y3) ->
+  0 < solid_angle_den OpsR Y1 Y2 Ym (norm OpsR Y1) (norm OpsR Y2) (norm OpsR Ym) ->
+  0 < solid_angle_den OpsR Y1 Ym Y3 (norm OpsR Y1) (norm OpsR Ym) (norm OpsR Y3) ->
+  solid_angle OpsR x v1 v2 v3 = solid_angle OpsR x v1 v2 m + solid_angle OpsR x v1 m v3.
+Proof. exact solid_angle_edge_split_lemma. Qed.
+Print Assumptions solid_angle_edge_split_additive.
 
 (* a value forced by symmetry: the coordinate octant, 4 PI / 8 *)
 Theorem solid_angle_octant : forall a b c, 0 < a -> 0 < b -> 0 < c ->
